@@ -243,7 +243,9 @@ Proof. exact share_iff_agree_partial_l. Qed.
 Print Assumptions C15_share_iff_agree_partial.
 
 Theorem C15_share_iff_agree_refuted :
-  kf_ambiguous [amb_t1; amb_t2; amb_u] = true /\ agreeb amb_u amb_t2 = true /  ~ same_group (group_items [amb_t1; amb_t2; amb_u]) amb_u amb_t2 /  same_group (group_items [amb_t2; amb_t1; amb_u]) amb_u amb_t2.
+  kf_ambiguous [amb_t1; amb_t2; amb_u] = true /\ agreeb amb_u amb_t2 = true /\
+  ~ same_group (group_items [amb_t1; amb_t2; amb_u]) amb_u amb_t2 /\
+  same_group (group_items [amb_t2; amb_t1; amb_u]) amb_u amb_t2.
 Proof. exact share_iff_agree_refuted_l. Qed.
 Print Assumptions C15_share_iff_agree_refuted.
 
